@@ -120,7 +120,15 @@ func deepCastRecursive(val Value, typ ast.Type, span errors.Span, allowCasts boo
 			}
 			return NewValueOption(innerCast), nil
 		}
-		return NewValueOption(&val), nil
+		// A plain value is only wrapped if it fits the inner type (`null` becomes `none`).
+		if val.Kind() == NullValueKind {
+			return NewNoneOption(), nil
+		}
+		wrappedInner, i := deepCastRecursive(val, typ.(ast.OptionType).Inner, span, allowCasts, fieldURI)
+		if i != nil {
+			return nil, i
+		}
+		return NewValueOption(wrappedInner), nil
 	}
 
 	switch val.Kind() {
